@@ -195,6 +195,9 @@ def gen_case(seed):
     case['pre']  = g_prep(rnd, ranks, True,  fail_where == 'pre')
     case['post'] = g_prep(rnd, ranks, False, fail_where == 'post')
     case['sync'] = ranks > 1 and rnd.randrange(4) == 0
+    # earlier tasks handled by the same executor (drawn last: the fields above keep their values)
+    case['before'] = [rnd.choice(['export', 'export', 'fail', 'rank'])
+                      for _ in range(rnd.choice([0, 0, 0, 1, 1, 2]))]
     return case
 
 
@@ -361,6 +364,7 @@ def normalise(case):
             if v is not None and not (isinstance(v, dict) and v.get('name')
                                       and v.get('kind') in ('rel', 'abs')):
                 c[k] = None
+        c['before'] = [b for b in (c.get('before') or []) if b in ('export', 'fail', 'rank')][:2]
         c['cores_per_rank'] = max(1, int(c.get('cores_per_rank', 1)))
         c['gpu_base'] = max(0, int(c.get('gpu_base', 0)))
         if c.get('gpus_per_rank') not in (0, 1, 2, 0.5):
@@ -563,7 +567,15 @@ def _run(case, eng, cdir, res):
         if on:
             res.label(lab)
 
-    # ---- drive the real code
+    # ---- drive the real code: earlier tasks of the same executor first
+    eng.reset_platform()
+    for k, kind in enumerate(case.get('before') or []):
+        pobs = eng.run_predecessor(k, kind)
+        if pobs['error'] is not None or pobs['hang']:
+            res.fail(exc_sig('handle_task_raised:earlier_task', pobs['error'] or RuntimeError('hang')),
+                     repr(pobs['error']))
+            return pobs
+        res.label('earlier_task:%s' % kind)
     obs = eng.run_task(td, slots, case.get('sandbox', 'default'))
     if obs['error'] is not None:
         res.fail(exc_sig('handle_task_raised', obs['error']), repr(obs['error']))
@@ -714,6 +726,12 @@ def _run(case, eng, cdir, res):
 
         # -- described environment
         genv = o['env']
+        leaked = sorted(k for k in genv if k.startswith('C10_PREV_'))
+        if leaked:
+            res.fail('env_from_earlier_task', 'rank %d sees %s, set by the pre_exec of an earlier task'
+                     % (r, leaked))
+        if genv.get('C10_PLATFORM_READY') != 'yes' and not pre_fails[r]:
+            res.label('note:platform_pre_exec_not_in_env')
         for k, w in env_want.items():
             if w is None:
                 res.label('unmodelled_expansion')
